@@ -226,9 +226,8 @@ class Circuit:
             # Otherwise default to circuit
             else:
                 name = "Circuit"
-        # When grouping use unpacked circuit
-        if group:
-            circuit = circuit_copy
+        # When grouping use unpacked circuit, otherwise a copy with groups kept
+        circuit = circuit_copy if group else circuit.copy()
         spec = circuit.__circuit_spec
         # Check circuit size is valid
         n_heralds = len(circuit.heralds["input"])
